@@ -38,11 +38,12 @@ ANCHORS = ["maze_dataset.dataset.maze_dataset:_load_maze_ctor", "maze_dataset.da
 AMBIENT = dict(generators=False, solver=False, solved=False)
 
 GENS = ["gen_dfs", "gen_wilson", "gen_percolation", "gen_dfs_percolation", "gen_prim"]
-KW = {"gen_dfs": [{}, dict(do_forks=False), dict(accessible_cells=20), dict(max_tree_depth=0.5), dict(accessible_cells=0.3, randomized_stack=True, start_coord=[0, 1])],
+KW = {"gen_dfs": [{}, dict(do_forks=False), dict(accessible_cells=20), dict(max_tree_depth=0.5), dict(accessible_cells=0.3, randomized_stack=True, start_coord=[0, 1]),
+                  dict(accessible_cells=1.0), dict(max_tree_depth=1.0, accessible_cells=2.0), dict(accessible_cells=1)],
       "gen_wilson": [{}],
       "gen_percolation": [{}, dict(p=1.0), dict(p=0.25, start_coord=[1, 1])],
       "gen_dfs_percolation": [{}, dict(p=0.1), dict(p=0.4, accessible_cells=7)],
-      "gen_prim": [{}, dict(do_forks=False), dict(accessible_cells=0.5, max_tree_depth=0.5)]}
+      "gen_prim": [{}, dict(do_forks=False), dict(accessible_cells=0.5, max_tree_depth=0.5), dict(max_tree_depth=3.0)]}
 EK = [{}, dict(deadend_start=True), dict(deadend_end=True, endpoints_not_equal=True), dict(allowed_start=[(0, 0)]),
       dict(allowed_start=[(0, 0), (1, 1)], allowed_end=[(2, 2), (0, 2), (1, 0)]), dict(allowed_end=[(1, 2)], deadend_start=False, except_when_invalid=True),
       dict(allowed_start=None, allowed_end=[(0, 1)])]
@@ -51,7 +52,7 @@ FL = [[], [dict(name="path_length", args=(3,), kwargs={})], [dict(name="start_en
       [dict(name="remove_duplicates", args=(1, None), kwargs=dict(_max_dataset_len_threshold=500))],
       [dict(name="collect_generation_meta", args=(), kwargs={})],
       [dict(name="path_length", args=(2,), kwargs={}), dict(name="path_length", args=(4,), kwargs={}), dict(name="remove_duplicates_fast", args=(), kwargs={})]]
-NAMES = ["test", "demo small", "a/b\\c", "ünïcode-μ", "x" * 40, "with.dots_and-dashes", "UPPER lower 123", "tab\tname", "q?*:<>|\"'"]
+NAMES = ["test", "demo small", "a/b\\c", "ünïcode-μ", "x" * 40, "long-descriptive-dataset-name-" * 3, "n" * 130, "with.dots_and-dashes", "UPPER lower 123", "tab\tname", "q?*:<>|\"'"]
 NM = [1, 2, 999, 1000, 1001, 10**6, 12345, 99999, 100000, 5 * 10**7]
 
 
@@ -89,7 +90,13 @@ def mutate(spec, field, rng):
         s["maze_ctor_kwargs"] = spec["maze_ctor_kwargs"]
     elif field == "maze_ctor_kwargs":
         kw = dict(spec["maze_ctor_kwargs"])
-        if kw and rng.random() < 0.5:
+        whole = [k for k, v in kw.items() if isinstance(v, float) and not isinstance(v, bool) and float(v).is_integer()]
+        ints = [k for k, v in kw.items() if isinstance(v, int) and not isinstance(v, bool)]
+        if whole and rng.random() < 0.7:
+            kw[whole[0]] = int(kw[whole[0]])       # proportion 1.0 -> count 1: a different generator argument
+        elif ints and rng.random() < 0.5:
+            kw[ints[0]] = float(kw[ints[0]])
+        elif kw and rng.random() < 0.5:
             k = sorted(kw)[0]
             kw[k] = (not kw[k]) if isinstance(kw[k], bool) else (kw[k] * 0.5 if isinstance(kw[k], float) else kw[k])
             if kw == spec["maze_ctor_kwargs"]:
@@ -129,6 +136,10 @@ def typed(x):
         return ("list", [typed(v) for v in x])
     if isinstance(x, dict):
         return ("dict", sorted((str(k), typed(v)) for k, v in x.items()))
+    if isinstance(x, bool) or x is None or isinstance(x, str):
+        return x
+    if isinstance(x, (int, float)):
+        return (type(x).__name__, x)  # 1 and 1.0 are different generator arguments (count vs proportion)
     return x
 
 
@@ -150,7 +161,7 @@ def check_roundtrip(ctx, spec, cfg, via_json):
         for k in a:
             if k in ("endpoint_kwargs", "applied_filters"):
                 continue
-            ctx.check(a[k] == b[k] and type(a[k]) is type(b[k]), f"{mech}/field-differs/{k}", f"{k}: {a[k]!r} -> {b[k]!r}", case)
+            ctx.check(a[k] == b[k] and type(a[k]) is type(b[k]) and typed(a[k]) == typed(b[k]), f"{mech}/field-differs/{k}", f"{k}: {a[k]!r} -> {b[k]!r}", case)
         # endpoint options: coordinate lists restored as lists of tuples
         ek_a, ek_b = a["endpoint_kwargs"], b["endpoint_kwargs"]
         ctx.check(typed(ek_a) == typed(ek_b), f"{mech}/endpoint-options-differ", lambda: f"{ek_a!r} -> {ek_b!r}", case)
